@@ -115,6 +115,10 @@ func (r *runningRoutine[K, V]) execute(
 		err = r.routine(ctx)
 	}
 	cancel()
+	if waitCh != nil {
+		// exitedCh also tells later instances that every earlier one has returned
+		<-waitCh
+	}
 	close(exitedCh)
 
 	r.k.mtx.Lock()
